@@ -169,6 +169,11 @@ static void build_alphabet()
     G("inv", {EX}, EX, [](const std::vector<B> &a) { return div(integer(1), a[0]); }, true);
     G("square", {EX}, EX, [](const std::vector<B> &a) { return pow(a[0], integer(2)); }, false);
     G("f(.)", {EX}, EX, [](const std::vector<B> &a) { return function_symbol("f", a[0]); }, true);
+    // user function names with upper-case letters / digits / underscores: printers emit names verbatim, the SBML parser looks
+    // built-ins up case-insensitively (added after seeded change C44 -- lower-cased user function names -- escaped)
+    G("Hill(.)", {EX}, EX, [](const std::vector<B> &a) { return function_symbol("Hill", a[0]); }, true);
+    G("rateLaw_1(.,.)", {EX, EX}, EX, [](const std::vector<B> &a) { return function_symbol("rateLaw_1", {a[0], a[1]}); });
+    G("F(.)", {EX}, EX, [](const std::vector<B> &a) { return function_symbol("F", a[0]); }, true);
     G("d/dx g(.,y)", {EX}, EX, [x, y](const std::vector<B> &a) { return function_symbol("g", {a[0], y})->diff(rcp_static_cast<const Symbol>(x)); }, false);
     G("d2/dxdy g(x,y,.)", {EX}, EX,
       [x, y](const std::vector<B> &a) { return function_symbol("g", {x, y, a[0]})->diff(rcp_static_cast<const Symbol>(x))->diff(rcp_static_cast<const Symbol>(y)); }, false);
